@@ -499,6 +499,7 @@ func c13Sequential(w *simrt.World, withRedis bool) {
 		w.Probe("mode.memory-vs-model")
 	}
 	md := &c13model{m: map[string]*c13item{}}
+	mdR := &c13model{m: map[string]*c13item{}}
 	n := 10 + c.Intn(51, "nops")
 	uniq := 0
 	last := map[string]string{} // last value written per scalar key
@@ -532,6 +533,19 @@ func c13Sequential(w *simrt.World, withRedis bool) {
 		now := time.Now()
 		cls := md.class(o.Key, now)
 		want := md.step(o, now)
+		// mdR: the same reference with the one recorded difference of Redis built in (a list that is set
+		// empty or emptied is no key at all). A divergence on a key that went through an empty list is
+		// attributed to that difference only if Redis answers exactly what this second reference expects.
+		var wantR []string
+		if rd != nil {
+			wantR = mdR.step(o, now)
+			if it := mdR.m[o.Key]; it != nil && it.kind == "list" && len(it.list) == 0 {
+				delete(mdR.m, o.Key)
+			}
+			if o.Op == "GetList" && contains(wantR, "notfound") {
+				wantR = append(wantR, "v:[]") // LRANGE on a missing key (its own recorded difference)
+			}
+		}
 		got := c13apply(mem, o)
 		hist = append(hist, o.String()+"→"+got)
 		if cls == "expired" || o.Op == "CAS" || o.Op == "SetNX" {
@@ -567,6 +581,8 @@ func c13Sequential(w *simrt.World, withRedis bool) {
 		if it := md.m[o.Key]; it != nil && it.kind == "list" && len(it.list) == 0 {
 			emptied[o.Key] = true
 			w.Probe("list.became-empty")
+		} else if o.Op == "Set" || o.Op == "Delete" || o.Op == "SetList" {
+			emptied[o.Key] = false // the key was rewritten as a whole in both backends
 		}
 		if o.Op == "IncrBy" && (cls == "live-forever" || cls == "live-ttl") && got == fmt.Sprintf("v:%d", o.N) {
 			// an existing counter whose new value happens to equal the increment
@@ -582,7 +598,9 @@ func c13Sequential(w *simrt.World, withRedis bool) {
 					// and LRANGE on a missing key answers an empty list
 					if rearmed[o.Key] {
 						sig = "C13:diff:redis-IncrBy-rearms-lifetime-when-result-equals-increment"
-					} else if emptied[o.Key] {
+					} else if emptied[o.Key] && (c13Explained(wantR, rg) || (wantR == nil && strings.HasPrefix(rg, "v:"))) {
+						// (wantR == nil: the Redis-flavoured reference leaves the answer open, e.g. the
+						// implementation-chosen lifetime of a list re-created by an append)
 						sig = "C13:diff:empty-list-is-not-a-key-in-redis"
 					} else if o.Op == "GetList" && (cls == "absent" || cls == "expired") {
 						sig = "C13:diff:GetList-of-missing-key"
@@ -590,9 +608,9 @@ func c13Sequential(w *simrt.World, withRedis bool) {
 					w.Violationf(sig,
 						"memory answered %s but redis answered %s for %s (key state %s) after history:\n%s", got, rg, o, cls, strings.Join(tailStr(hist, 25), "\n"))
 					// a classified root cause: stop comparing this key (its state now differs) but go on with the others
-					if strings.HasPrefix(sig, "C13:diff:GetList-of") {
-						// no state divergence
-					} else if rearmed[o.Key] || emptied[o.Key] {
+					if strings.HasPrefix(sig, "C13:diff:GetList-of") || sig == "C13:diff:empty-list-is-not-a-key-in-redis" {
+						// no further state divergence (the second reference follows Redis on emptied lists)
+					} else if rearmed[o.Key] {
 						tainted[o.Key] = true
 					} else {
 						return
@@ -632,6 +650,16 @@ func c13ExpClose(a, b string) bool {
 }
 
 // c13Restricted: the operations and shapes the repositories use.
+// c13Explained: Redis's answer is one the Redis-flavoured reference expects (lifetimes to the second).
+func c13Explained(wantR []string, rg string) bool {
+	for _, x := range wantR {
+		if x == rg || c13ExpClose(x, rg) {
+			return true
+		}
+	}
+	return false
+}
+
 func c13Restricted(o c13op) bool {
 	switch o.Op {
 	case "Set", "Get", "Delete", "Exists", "SetNX", "CAS", "GetList", "Append", "Remove", "SetList", "IncrBy", "SetExpiration", "GetExpiration":
